@@ -597,3 +597,58 @@ impl From<ToolTaskStatus> for ApiToolTaskStatus {
         }
     }
 }
+
+/// Verification exports (compiled only with `--cfg rip_verif`).
+#[cfg(rip_verif)]
+pub mod verif_hooks {
+    use super::*;
+
+    fn config_for(workspace_root: &Path) -> TaskEngineConfig {
+        TaskEngineConfig {
+            workspace_root: workspace_root.to_path_buf(),
+            artifact_max_bytes: 0,
+            max_bytes: 0,
+        }
+    }
+
+    /// Feeds `chunks` through a real `TaskLogWriter` with cap `max_bytes`; returns the range
+    /// record of every append and the final summary.
+    pub async fn log_writer_feed(
+        workspace_root: &Path,
+        artifact_id: &str,
+        max_bytes: usize,
+        chunks: &[Vec<u8>],
+    ) -> Result<(Vec<Value>, Value), String> {
+        let config = config_for(workspace_root);
+        tokio::fs::create_dir_all(config.artifacts_blobs_dir())
+            .await
+            .map_err(|err| err.to_string())?;
+        let mut writer = logs::TaskLogWriter::new(&config, artifact_id, "blob", max_bytes).await?;
+        let mut ranges = Vec::new();
+        for chunk in chunks {
+            ranges.push(writer.append(chunk).await.map_err(|_| "append failed".to_string())?);
+        }
+        Ok((ranges, writer.finish().as_json()))
+    }
+
+    pub fn read_range(
+        workspace_root: &Path,
+        id: &str,
+        offset_bytes: u64,
+        max_bytes: usize,
+    ) -> Result<(String, usize, u64, bool), String> {
+        read_artifact_range(&config_for(workspace_root), id, offset_bytes, max_bytes)
+    }
+
+    pub fn truncate_utf8(bytes: &[u8], max_bytes: usize) -> (String, bool, usize) {
+        logs::truncate_utf8(bytes, max_bytes)
+    }
+
+    pub fn resolve_path(root: &Path, raw: &str) -> Result<PathBuf, String> {
+        logs::resolve_path(root, raw)
+    }
+
+    pub fn new_artifact_id() -> String {
+        logs::new_artifact_id()
+    }
+}
